@@ -436,7 +436,7 @@ class SymInterp(PathInterp):
             if value_node is not None and isinstance(value_node, ast.Call) and ast.unparse(value_node.func) in ("copy.deepcopy", "copy.copy", "deepcopy") \
                     and len(value_node.args) == 1 and isinstance(value_node.args[0], ast.Name) and value_node.args[0].id == target.id:
                 return st.event("copy", target.id)
-            if value_node is not None and (isinstance(value_node, (ast.Dict, ast.List, ast.Set)) or (
+            if value_node is not None and ((isinstance(value_node, ast.Dict) and not value_node.keys) or (isinstance(value_node, (ast.List, ast.Set)) and not value_node.elts) or (
                     isinstance(value_node, ast.Call) and ast.unparse(value_node.func) in ("dict", "list", "set", "defaultdict", "collections.defaultdict", "OrderedDict") and not value_node.args)):
                 # a fresh mutable container: an object that later statements fill; the name stays (it is not a staging alias)
                 drop = Sym(tuple((n, x) for n, x in st.env if n != target.id), st.conds, st.events)
